@@ -2,6 +2,7 @@
    (used by the correspondence run of C08; no proofs). *)
 From Coq Require Import ZArith List Bool.
 From IP Require Import Gen.SrcFacts_Agent Agent.Backoff.
+From IP Require Export Lib.Util.
 Import ListNotations.
 Open Scope Z_scope.
 
@@ -30,9 +31,3 @@ Fixpoint gaps_ok (slack : Z) (exp : list (option Z)) (gaps : list Z) : bool :=
 
 Definition loop_ok (slack : Z) (c : list bool * list Z) : bool :=
   gaps_ok slack (expected_from 0 (fst c)) (snd c).
-
-Fixpoint bad_indices {A} (ok : A -> bool) (i : Z) (l : list A) : list Z :=
-  match l with
-  | [] => []
-  | x :: r => if ok x then bad_indices ok (i + 1) r else i :: bad_indices ok (i + 1) r
-  end.
